@@ -6,8 +6,12 @@
    `words` of its Word tokens in order (how a text is cut into tokens is C02's subject).  Hypotheses in
    statements — lower_fix, uc non-empty, fuzzy_listed, dict_nodup — are monitored on the implementation by
    harness/src/bin/c06.rs in every run.  `In sp words /\ get_content sp src = Ok w` is the premise
-   single_word_token: the word stands in the text as one Word token. *)
-Require Import Base Tables_spellnorm SpellDecision SpellDecisionProofs.
+   single_word_token: the word stands in the text as one Word token.  In the second half of this file (theorems C06_text_..,
+   C06_one_word_.., C06_simple_word_.., C06_f24_..) the tokens are no longer given: `doc_words u src` computes them
+   with C02's model of PlainEnglish::parse + the passes of Document::parse (u = Unicode predicates of the lexer),
+   `one_word u w` decides whether w alone is exactly one Word token, `lint_text` = tokenise, then lint. *)
+Require Import Base Tables_lexer Lexer Condense Tables_spellnorm SpellDecision SpellDecisionProofs.
+Require Import Tables_f24 C06Words C06WordsProofs C06TextProofs.
 
 (* the decision, exactly: a word token with text w is accepted iff some entry has its id and is compatible with
    the active dialect, and some entry is spelt — up to normalisation of both sides (ebb53b3) — exactly like w or
@@ -207,6 +211,240 @@ Check C06_multi_token_refuted :
     ls <> [] /\ (forall l, In l ls -> In (sl_span l) words) /\
     ~ In (mkspan 0 (length src)) words.
 Print Assumptions C06_multi_token_refuted.
+
+
+(* ================= C06 on texts: the Word tokens are computed (C02's lexer + condense model) ================= *)
+
+(* tokenising never panics and every Word token lies inside the text (from C02's tiling theorem, no hypothesis):
+   this discharges the premise `tokens in bounds` of C06_unlisted_reported / C06_total *)
+Theorem C06_doc_words_total :
+  forall (u : uni) (s : text),
+  exists words, doc_words u s = Ok words /\ forall sp, In sp words -> span_in (length s) sp.
+Proof. exact doc_words_total. Qed.
+Check C06_doc_words_total :
+  forall (u : uni) (s : text),
+  exists words, doc_words u s = Ok words /\ forall sp, In sp words -> span_in (length s) sp.
+Print Assumptions C06_doc_words_total.
+
+(* positive half on a text: no lint of the text sits on a computed Word token spelt like a listed form *)
+Theorem C06_text_listed_accepted :
+  forall (u : uni) (lc uc : char -> list char) (is_lower is_upper : char -> bool) (fuzzy : dict -> text -> nat -> list text),
+  lower_fix lc is_lower ->
+  forall D d e src words sp w ls,
+  dict_nodup lc is_lower D -> In e D -> dialect_ok (edialect e) d = true ->
+  doc_words u src = Ok words -> In sp words -> get_content sp src = Ok w ->
+  ( w = canon e
+    \/ (normalized (canon e) = canon e /\ lower_case lc is_lower (canon e) /\ w = capitalise uc (canon e) /\
+        Forall (case_regular lc uc) (firstn 1 (canon e)))
+    \/ (normalized (canon e) = canon e /\ lower_case lc is_lower (canon e) /\ w = upper uc (canon e) /\
+        Forall (case_regular lc uc) (canon e)) ) ->
+  lint_text u lc uc is_lower is_upper fuzzy D d src = Ok ls ->
+  forall l, In l ls -> sl_span l <> sp.
+Proof. exact text_listed_accepted. Qed.
+Check C06_text_listed_accepted :
+  forall (u : uni) (lc uc : char -> list char) (is_lower is_upper : char -> bool) (fuzzy : dict -> text -> nat -> list text),
+  lower_fix lc is_lower ->
+  forall D d e src words sp w ls,
+  dict_nodup lc is_lower D -> In e D -> dialect_ok (edialect e) d = true ->
+  doc_words u src = Ok words -> In sp words -> get_content sp src = Ok w ->
+  ( w = canon e
+    \/ (normalized (canon e) = canon e /\ lower_case lc is_lower (canon e) /\ w = capitalise uc (canon e) /\
+        Forall (case_regular lc uc) (firstn 1 (canon e)))
+    \/ (normalized (canon e) = canon e /\ lower_case lc is_lower (canon e) /\ w = upper uc (canon e) /\
+        Forall (case_regular lc uc) (canon e)) ) ->
+  lint_text u lc uc is_lower is_upper fuzzy D d src = Ok ls ->
+  forall l, In l ls -> sl_span l <> sp.
+Print Assumptions C06_text_listed_accepted.
+
+(* converse on a text: a computed Word token whose id no entry has is reported with exactly its span (no premise
+   about the tokens any more) *)
+Theorem C06_text_unlisted_reported :
+  forall (u : uni) (lc uc : char -> list char) (is_lower is_upper : char -> bool) (fuzzy : dict -> text -> nat -> list text),
+  (forall c, uc c <> []) -> fuzzy_listed fuzzy ->
+  forall D d src words sp w,
+  dict_nodup lc is_lower D -> doc_words u src = Ok words -> In sp words -> get_content sp src = Ok w ->
+  (forall e, In e D -> word_id lc is_lower (canon e) <> word_id lc is_lower w) ->
+  exists ls sg, lint_text u lc uc is_lower is_upper fuzzy D d src = Ok ls /\ In (mkslint sp sg) ls.
+Proof. exact text_unlisted_reported. Qed.
+Check C06_text_unlisted_reported :
+  forall (u : uni) (lc uc : char -> list char) (is_lower is_upper : char -> bool) (fuzzy : dict -> text -> nat -> list text),
+  (forall c, uc c <> []) -> fuzzy_listed fuzzy ->
+  forall D d src words sp w,
+  dict_nodup lc is_lower D -> doc_words u src = Ok words -> In sp words -> get_content sp src = Ok w ->
+  (forall e, In e D -> word_id lc is_lower (canon e) <> word_id lc is_lower w) ->
+  exists ls sg, lint_text u lc uc is_lower is_upper fuzzy D d src = Ok ls /\ In (mkslint sp sg) ls.
+Print Assumptions C06_text_unlisted_reported.
+
+(* tokenise + lint never panics on any text *)
+Theorem C06_text_total :
+  forall (u : uni) (lc uc : char -> list char) (is_lower is_upper : char -> bool) (fuzzy : dict -> text -> nat -> list text),
+  (forall c, uc c <> []) -> fuzzy_listed fuzzy ->
+  forall D d src, dict_nodup lc is_lower D ->
+  exists ls, lint_text u lc uc is_lower is_upper fuzzy D d src = Ok ls.
+Proof. exact text_total. Qed.
+Check C06_text_total :
+  forall (u : uni) (lc uc : char -> list char) (is_lower is_upper : char -> bool) (fuzzy : dict -> text -> nat -> list text),
+  (forall c, uc c <> []) -> fuzzy_listed fuzzy ->
+  forall D d src, dict_nodup lc is_lower D ->
+  exists ls, lint_text u lc uc is_lower is_upper fuzzy D d src = Ok ls.
+Print Assumptions C06_text_total.
+
+(* every lint of a text sits on one of its Word tokens and each of its at most three suggestions is an entry of the
+   active dialect up to upper-casing its first character (the whole post-processing of the fuzzy results — dialect
+   filter, truncation, capitalisation — is inside the model) *)
+Theorem C06_text_suggestions_in_dictionary :
+  forall (u : uni) (lc uc : char -> list char) (is_lower is_upper : char -> bool) (fuzzy : dict -> text -> nat -> list text),
+  fuzzy_listed fuzzy ->
+  forall D d src ls l, dict_nodup lc is_lower D ->
+  lint_text u lc uc is_lower is_upper fuzzy D d src = Ok ls -> In l ls ->
+  (exists words, doc_words u src = Ok words /\ In (sl_span l) words) /\
+  length (sl_sugg l) <= suggestions_kept /\
+  forall s, In s (sl_sugg l) ->
+    exists e, In e D /\ dialect_ok (edialect e) d = true /\ (s = canon e \/ cap_first uc (canon e) = Ok s).
+Proof. exact text_suggestions_in_dictionary. Qed.
+Check C06_text_suggestions_in_dictionary :
+  forall (u : uni) (lc uc : char -> list char) (is_lower is_upper : char -> bool) (fuzzy : dict -> text -> nat -> list text),
+  fuzzy_listed fuzzy ->
+  forall D d src ls l, dict_nodup lc is_lower D ->
+  lint_text u lc uc is_lower is_upper fuzzy D d src = Ok ls -> In l ls ->
+  (exists words, doc_words u src = Ok words /\ In (sl_span l) words) /\
+  length (sl_sugg l) <= suggestions_kept /\
+  forall s, In s (sl_sugg l) ->
+    exists e, In e D /\ dialect_ok (edialect e) d = true /\ (s = canon e \/ cap_first uc (canon e) = Ok s).
+Print Assumptions C06_text_suggestions_in_dictionary.
+
+(* in isolation, with the premise single_word_token COMPUTED: a listed form that the tokeniser cuts into exactly
+   one Word token draws no lint at all *)
+Theorem C06_one_word_alone_accepted :
+  forall (u : uni) (lc uc : char -> list char) (is_lower is_upper : char -> bool) (fuzzy : dict -> text -> nat -> list text),
+  lower_fix lc is_lower ->
+  forall D d e w,
+  dict_nodup lc is_lower D -> In e D -> dialect_ok (edialect e) d = true ->
+  one_word u w = true ->
+  ( w = canon e
+    \/ (normalized (canon e) = canon e /\ lower_case lc is_lower (canon e) /\ w = capitalise uc (canon e) /\
+        Forall (case_regular lc uc) (firstn 1 (canon e)))
+    \/ (normalized (canon e) = canon e /\ lower_case lc is_lower (canon e) /\ w = upper uc (canon e) /\
+        Forall (case_regular lc uc) (canon e)) ) ->
+  lint_text u lc uc is_lower is_upper fuzzy D d w = Ok [].
+Proof. exact one_word_alone_accepted. Qed.
+Check C06_one_word_alone_accepted :
+  forall (u : uni) (lc uc : char -> list char) (is_lower is_upper : char -> bool) (fuzzy : dict -> text -> nat -> list text),
+  lower_fix lc is_lower ->
+  forall D d e w,
+  dict_nodup lc is_lower D -> In e D -> dialect_ok (edialect e) d = true ->
+  one_word u w = true ->
+  ( w = canon e
+    \/ (normalized (canon e) = canon e /\ lower_case lc is_lower (canon e) /\ w = capitalise uc (canon e) /\
+        Forall (case_regular lc uc) (firstn 1 (canon e)))
+    \/ (normalized (canon e) = canon e /\ lower_case lc is_lower (canon e) /\ w = upper uc (canon e) /\
+        Forall (case_regular lc uc) (canon e)) ) ->
+  lint_text u lc uc is_lower is_upper fuzzy D d w = Ok [].
+Print Assumptions C06_one_word_alone_accepted.
+
+(* ... and an unlisted one draws exactly one lint, covering exactly the word *)
+Theorem C06_one_word_alone_reported :
+  forall (u : uni) (lc uc : char -> list char) (is_lower is_upper : char -> bool) (fuzzy : dict -> text -> nat -> list text),
+  (forall c, uc c <> []) -> fuzzy_listed fuzzy ->
+  forall D d w,
+  dict_nodup lc is_lower D -> one_word u w = true ->
+  (forall e, In e D -> word_id lc is_lower (canon e) <> word_id lc is_lower w) ->
+  exists sg, lint_text u lc uc is_lower is_upper fuzzy D d w = Ok [mkslint (mkspan 0 (length w)) sg].
+Proof. exact one_word_alone_reported. Qed.
+Check C06_one_word_alone_reported :
+  forall (u : uni) (lc uc : char -> list char) (is_lower is_upper : char -> bool) (fuzzy : dict -> text -> nat -> list text),
+  (forall c, uc c <> []) -> fuzzy_listed fuzzy ->
+  forall D d w,
+  dict_nodup lc is_lower D -> one_word u w = true ->
+  (forall e, In e D -> word_id lc is_lower (canon e) <> word_id lc is_lower w) ->
+  exists sg, lint_text u lc uc is_lower is_upper fuzzy D d w = Ok [mkslint (mkspan 0 (length w)) sg].
+Print Assumptions C06_one_word_alone_reported.
+
+(* characterisation of one_word (through lex_word, lex_plural_digit — `as`, `a's` —, every other sub-lexer and the
+   contraction pass): a non-empty string of lingual characters, or letters + one apostrophe (' or U+2019) + letters,
+   is exactly one Word token.  letter_laws = what is_english_lingual excludes; monitored over all scalar values *)
+Theorem C06_simple_word_one_word :
+  forall u : uni, letter_laws u -> forall w : text, simple_word u w ->
+  document_plain u w = Ok [mktok (mkspan 0 (length w)) KWord] /\ one_word u w = true.
+Proof. exact (fun u L w S => conj (simple_word_document u L w S) (simple_word_one_word u L w S)). Qed.
+Check C06_simple_word_one_word :
+  forall u : uni, letter_laws u -> forall w : text, simple_word u w ->
+  document_plain u w = Ok [mktok (mkspan 0 (length w)) KWord] /\ one_word u w = true.
+Print Assumptions C06_simple_word_one_word.
+
+(* F24 as a theorem over the GENERATED table (Tables_f24.v: the curated entries the implementation does not cut
+   into one Word token; the harness re-derives the set in every run and requires equality): the model lexer does
+   not cut any of them into exactly one Word token either (vm_compute over the table, lifted with forallb_forall) *)
+Theorem C06_f24_entries_not_one_word :
+  forall e, In e f24_entries ->
+  one_word f24_uni e = false /\ exists ts, document_plain f24_uni e = Ok ts.
+Proof. exact f24_entries_not_one_word. Qed.
+Check C06_f24_entries_not_one_word :
+  forall e, In e f24_entries ->
+  one_word f24_uni e = false /\ exists ts, document_plain f24_uni e = Ok ts.
+Print Assumptions C06_f24_entries_not_one_word.
+
+(* conversely, no entry of the table is a simple word (the table's Unicode predicates satisfy letter_laws: proved) *)
+Theorem C06_f24_entries_not_simple :
+  forall e, In e f24_entries -> ~ simple_word f24_uni e.
+Proof. exact f24_entries_not_simple. Qed.
+Check C06_f24_entries_not_simple :
+  forall e, In e f24_entries -> ~ simple_word f24_uni e.
+Print Assumptions C06_f24_entries_not_simple.
+
+(* F24 (open) on a text: the premise one_word of C06_one_word_alone_accepted cannot be dropped — the witness of
+   C06_multi_token_refuted with the tokens computed by the lexer model *)
+Theorem C06_multi_token_text_refuted :
+  exists D d e ls,
+    dict_nodup ascii_lc ascii_is_lower D /\ In e D /\ dialect_ok (edialect e) d = true /\
+    one_word ascii_uni0 (canon e) = false /\
+    doc_words ascii_uni0 (canon e) = Ok f24_words /\
+    lint_text ascii_uni0 ascii_lc ascii_uc ascii_is_lower ascii_is_upper no_fuzzy D d (canon e) = Ok ls /\ ls <> [].
+Proof. exact multi_token_text_refuted. Qed.
+Check C06_multi_token_text_refuted :
+  exists D d e ls,
+    dict_nodup ascii_lc ascii_is_lower D /\ In e D /\ dialect_ok (edialect e) d = true /\
+    one_word ascii_uni0 (canon e) = false /\
+    doc_words ascii_uni0 (canon e) = Ok f24_words /\
+    lint_text ascii_uni0 ascii_lc ascii_uc ascii_is_lower ascii_is_upper no_fuzzy D d (canon e) = Ok ls /\ ls <> [].
+Print Assumptions C06_multi_token_text_refuted.
+
+(* ---------- non-vacuity of the second half ---------- *)
+Example C06_letter_laws_satisfiable : letter_laws ascii_uni0 /\ letter_laws f24_uni.
+Proof. exact (conj ascii_letter_laws f24_letter_laws). Qed.
+
+(* hello, don't, don’t (U+2019), a's (glued by lex_plural_digit), as: simple words, hence one Word token; the table
+   is not empty: e.g. 3D (Number + Word) *)
+Example C06_nonvacuous_words :
+  simple_word ascii_uni0 [104;101;108;108;111]%N /\
+  simple_word ascii_uni0 [100;111;110;39;116]%N /\
+  simple_word ascii_uni0 [100;111;110;8217;116]%N /\
+  simple_word ascii_uni0 [97;39;115]%N /\
+  one_word ascii_uni0 [97;39;115]%N = true /\ one_word ascii_uni0 [97;115]%N = true /\
+  one_word ascii_uni0 [51;68]%N = false /\ In [51;68]%N f24_entries /\ length f24_entries = 579.
+Proof.
+  split; [left; split; [discriminate|reflexivity]|].
+  split; [right; exists [100;111;110]%N, 39%N, [116]%N; repeat split; discriminate|].
+  split; [right; exists [100;111;110]%N, 8217%N, [116]%N; repeat split; discriminate|].
+  split; [right; exists [97]%N, 39%N, [115]%N; repeat split; discriminate|].
+  repeat split; try (vm_compute; reflexivity). left; reflexivity.
+Qed.
+
+(* dictionary {hello, don't}: `Hello` and `don’t` alone draw no lint, `helo` alone draws one lint at [0,4) *)
+Example C06_nonvacuous_alone :
+  let hello := [104;101;108;108;111]%N in
+  let dont := [100;111;110;39;116]%N in
+  let D := [mkentry hello None; mkentry dont None] in
+  dict_nodup ascii_lc ascii_is_lower D /\
+  one_word ascii_uni0 [72;101;108;108;111]%N = true /\
+  lint_text ascii_uni0 ascii_lc ascii_uc ascii_is_lower ascii_is_upper no_fuzzy D American [72;101;108;108;111]%N = Ok [] /\
+  lint_text ascii_uni0 ascii_lc ascii_uc ascii_is_lower ascii_is_upper no_fuzzy D American [100;111;110;8217;116]%N = Ok [] /\
+  lint_text ascii_uni0 ascii_lc ascii_uc ascii_is_lower ascii_is_upper no_fuzzy D American [104;101;108;111]%N
+    = Ok [mkslint (mkspan 0 4) []].
+Proof.
+  cbv zeta. split; [unfold dict_nodup; vm_compute; repeat constructor; cbn; intuition discriminate|].
+  repeat split; vm_compute; reflexivity.
+Qed.
 
 (* ---------- non-vacuity: the hypotheses are satisfiable on non-trivial inputs (ASCII instance) ---------- *)
 Example C06_hypotheses_satisfiable :
